@@ -27,18 +27,18 @@ type demo4Cfg struct {
 }
 
 type demo4Toml struct {
-	S   string            `dials:"s"`
-	I   int               `dials:"i"`
-	D   time.Duration     `dials:"d"`
-	U   rty.TUp           `dials:"u"`
-	IP  net.IP            `dials:"ip"`
-	L   []string          `dials:"l"`
-	M   map[string]string `dials:"m"`
-	St  struct{ A int }   `dials:"st"`
-	B   bool              `dials:"b"`
-	W   time.Time         `dials:"w"`
-	Ws  []time.Time       `dials:"ws"`
-	Wm  map[string]time.Time `dials:"wm"`
+	S  string               `dials:"s"`
+	I  int                  `dials:"i"`
+	D  time.Duration        `dials:"d"`
+	U  rty.TUp              `dials:"u"`
+	IP net.IP               `dials:"ip"`
+	L  []string             `dials:"l"`
+	M  map[string]string    `dials:"m"`
+	St struct{ A int }      `dials:"st"`
+	B  bool                 `dials:"b"`
+	W  time.Time            `dials:"w"`
+	Ws []time.Time          `dials:"ws"`
+	Wm map[string]time.Time `dials:"wm"`
 }
 
 func demo4() {
